@@ -55,7 +55,7 @@ func newFelix(r *core.R, name string, monitor bool) *felix {
 	conf.Encapsulation = config.Encapsulation{VXLANEnabled: true, IPIPEnabled: true}
 	f.conf = conf
 	f.dp = newModelDP(r, name, monitor, &f.inSync)
-	f.seq = calc.NewEventSequencer(dpConfig{})
+	f.seq = calc.NewEventSequencer(conf) // the real config object, exactly as AsyncCalcGraph wires it
 	f.seq.Callback = f.dp.OnEvent
 	f.graph = calc.NewCalculationGraph(f.seq, calc.NewLookupsCache(), conf, func() {})
 	f.vf = calc.NewValidationFilter(f.graph, conf)
